@@ -96,6 +96,7 @@ func NewPacketDumper(opts ...PacketDumperOption) (*PacketDumper, error) { //noli
 	dpl := &defaultPacketLogger{
 		log:                 dumper.log,
 		wg:                  sync.WaitGroup{},
+		closeMu:             sync.Mutex{},
 		close:               make(chan struct{}),
 		rtpChan:             make(chan *rtpDump),
 		rtcpChan:            make(chan *rtcpDump),
